@@ -19,7 +19,7 @@ Prelude == << SVar("arr", Arr(<<Num(1), Num(2)>>)), SVar("obj", Obj(<<"k">>, <<N
 Faults == {
   <<"undef", Id("zz")>>, <<"undef-assign", Asg("zz", Num(1))>>, <<"operand", Bin("-", Num(1), Lit(VNil))>>,
   <<"operand-unary", Un("-", Str("x"))>>, <<"operand-bitwise", Bin("&", Lit(D("1.5")), Num(1))>>,
-  <<"zero", Bin("/", Num(1), Num(0))>>, <<"zero-mod", Bin("%", Num(1), Num(0))>>, <<"shift", Bin("<<", Num(1), Un("-", Num(1)))>>,
+  <<"zero", Bin("/", Num(1), Num(0))>>, <<"zero-numeric-string", Bin("/", Num(1), Str("0"))>>, <<"zero-mod-bangla-string", Bin("%", Num(7), Lit(VStr(<<2534>>)))>>, <<"zero-mod", Bin("%", Num(1), Num(0))>>, <<"shift", Bin("<<", Num(1), Un("-", Num(1)))>>,
   <<"index-read", Idx(Id("arr"), Num(5))>>, <<"index-write", IAsg(Id("arr"), Num(2), Num(1))>>,
   <<"index-neg", Idx(Id("arr"), Un("-", Num(1)))>>, <<"index-frac", Idx(Id("arr"), Lit(D("0.5")))>>, <<"index-nonarray", Idx(Num(5), Num(0))>>,
   <<"prop-missing", Prop(Id("obj"), "nope")>>, <<"prop-nonobj", Prop(Num(5), "k")>>, <<"prop-store-nonobj", PAsg(Id("arr"), "k", Num(1))>>,
